@@ -192,6 +192,9 @@ def generate(src):
         if ex.feasible(ok): setG(ok, la=IntVal(0)); k(ok, PyInt(g['la_msg']))
         end = st.fork(); end.pc.append(g['la'] == 3)          # the broker's listen() stream ended: Task.result() re-raises StopAsyncIteration
         if ex.feasible(end): K['exc'](end, new_exc(end, 'StopAsyncIteration'))
+    def h_done(ex, st, e, recv, args, kw, k, K):          # Task.done() of the look-ahead fetch: it finished (a message was delivered, or the stream ended)
+        if ex.thread != 'P': raise Unsupported("done() of " + ast.unparse(e.func.value) + " outside the prefetcher")
+        g = G(st); return k(st, PyBool(Or(g['la'] == 2, g['la'] == 3)))
     def h_exception(ex, st, e, recv, args, kw, k, K):          # Task.exception() of the finished handler task: None or the exception it raised; raises only for a cancelled task (assumed away, see TRUSTED)
         if ex.thread != 'E' or recv != 'HANDLE_CB': raise Unsupported("exception() of " + ast.unparse(e.func.value))
         return k(st, fresh('handler_exception'))
@@ -278,7 +281,7 @@ def generate(src):
             return super().st_AugAssign(s, st, done, K)
     H = {'logger.*': noop, 'self.broker.listen': h_listen, '*.__anext__': h_anext, 'asyncio.create_task': h_create_task, 'self.callback': h_callback, '*.is_set': h_is_set,
          'self.sem_prefetch.acquire': h_sp_acquire, 'self.sem_prefetch.release': h_sp_release, 'self.sem.acquire': h_sa_acquire, 'self.sem.release': h_sa_release, 'asyncio.wait': h_wait,
-         '*.result': h_result, '*.exception': h_exception, '*.cancelled': h_cancelled, '*.cancel': h_cancel, 'queue.put': h_put, 'queue.put_nowait': h_put, 'queue.get': h_get, '*.add': noop, '*.add_done_callback': h_add_done_callback,
+         '*.result': h_result, '*.done': h_done, '*.exception': h_exception, '*.cancelled': h_cancelled, '*.cancel': h_cancel, 'queue.put': h_put, 'queue.put_nowait': h_put, 'queue.get': h_get, '*.add': noop, '*.add_done_callback': h_add_done_callback,
          '*.discard': noop, 'len': noop, 'set': h_set}
 
     # ---------------- Receiver.__init__: the semaphores are built from the configured limits  [C03/C04]
@@ -395,17 +398,18 @@ def generate(src):
             out.append(('E', name, pre, pc, [], post, name))
         return out
     allseg = segments + env_actions()
-    def add(name, hyps, facts, goal, props, w):
-        OBL.append(Obl(name, props, hyps + facts, goal, w, 'goal', RP))
+    def add(name, hyps, facts, goal, props, w, ap=()):
+        OBL.append(Obl(name, props, hyps + facts, goal, w, 'goal', RP, approx=ap))
     for (t, frm, pre, pc, facts, post, to) in allseg:
         hyp = list(base) + list(pc); fx = list(facts)
         if pre is not None:
             for c in Inv(pre).values(): (fx if is_quantifier(c) else hyp).append(c)
         tn = {'P': 'prefetcher', 'R': 'runner', 'E': 'env'}[t]
+        ap = tuple(post.get('__approx', ())) if isinstance(post, dict) else ()          # the segment was executed past code without a contract (core.approx): its refutations are undecided
         for cn, c in Inv(post).items():
-            add(f"OG/{tn}:{frm}->{to}/{cn}: {CONJ_TEXT.get(cn, cn)}", hyp, fx, c, CONJ_PROPS.get(cn, PROPS), wit(pre) if pre is not None else {'A': A, 'P': P, 'N': N, 'hasA': hasA})
+            add(f"OG/{tn}:{frm}->{to}/{cn}: {CONJ_TEXT.get(cn, cn)}", hyp, fx, c, CONJ_PROPS.get(cn, PROPS), wit(pre) if pre is not None else {'A': A, 'P': P, 'N': N, 'hasA': hasA}, ap)
         if t != 'E' and 'cb_pending_attach' in post:
-            add(f"OG/{tn}:{frm}->{to}/done-callback attached before the next suspension  [C03]", hyp, fx, post['cb_pending_attach'] == 0, ['C03'], wit(pre) if pre is not None else {})
+            add(f"OG/{tn}:{frm}->{to}/done-callback attached before the next suspension  [C03]", hyp, fx, post['cb_pending_attach'] == 0, ['C03'], wit(pre) if pre is not None else {}, ap)
     g = symstate('_p'); hyp = list(base); fx = []
     for c in Inv(g).values(): (fx if is_quantifier(c) else hyp).append(c)
     for pn, pr in PROPS_(g).items(): OBL.append(Obl("PROP/" + pn, [p for grp in re.findall(r"\[(C\d\d(?:/C\d\d)*)\]", pn) for p in grp.split('/')], hyp + fx, pr, wit(g), 'goal', RP))
